@@ -3100,3 +3100,97 @@ def corner_chain_rule(db, chk, cfg, rule="CORNER.chain"):
                       "start regions %s, first crossing in %s: corner steps %s, the walk is %s - a wrong corner (or none) is appended and the winding inside the rectangle changes"
                       % (bad, n, nm[loc0], [nm[s] for s in seq], nm[fc], fmt(rec), fmt(want)), where(block), cfg=cfg)
     return n
+
+
+# ---------------------------------------------------------------------------
+# CROSSING.latched: "not crossed yet" survives a segment that does not cross (C08)
+# ---------------------------------------------------------------------------
+
+def crossing_latched_rule(db, chk, cfg, rule="CROSSING.latched"):
+    """RectClip64::ExecuteInternal keeps in one variable where the path last crossed the rectangle, `Inside` meaning "not yet".  Before
+    every GetIntersection call the variable is loaded with the current region (GetIntersection overwrites it with the side crossed);
+    when the call reports no crossing and the previous value was `Inside`, the branch must put `Inside` back - otherwise the next
+    region change before the first crossing is emitted as corners instead of being recorded in start_locs_.  The no-crossing branch is
+    executed for every ordered pair of distinct side regions and both senses of rotation with the previous value `Inside`."""
+    from ..evalx import _Continue
+    f = db.one("RectClip64::ExecuteInternal")
+    main = None
+    for x in kids(f.body):
+        if x.get("kind") == "WhileStmt" and any(y.get("kind") in ("CallExpr", "CXXMemberCallExpr") and db.callee(y)[0] == "GetNextLocation" for y in walk(kids(x)[-1])):
+            main = x
+    if main is None:
+        raise AnalysisBroken("%s: main loop of RectClip64::ExecuteInternal not found" % rule)
+    site = None
+    for x in walk(kids(main)[-1]):
+        if x.get("kind") == "IfStmt":
+            cond, then, els = if_parts(x)
+            c0 = strip(cond)
+            if c0.get("kind") == "UnaryOperator" and c0.get("opcode") == "!" and any(y.get("kind") in ("CallExpr", "CXXMemberCallExpr") and db.callee(y)[0] == "GetIntersection" for y in walk(c0)):
+                site = (x, then, [y for y in walk(c0) if y.get("kind") in ("CallExpr", "CXXMemberCallExpr") and db.callee(y)[0] == "GetIntersection"][0])
+                break
+    if site is None:
+        raise AnalysisBroken("%s: `if (!GetIntersection(..))` not found in the main loop of RectClip64::ExecuteInternal" % rule)
+    node, then, call = site
+    cvar = canon(db.call_args(call)[3])
+    pvar = None
+    for y in walk(kids(main)[-1]):
+        if y.get("kind") == "VarDecl":
+            init = [c for c in kids(y) if isinstance(c, dict) and c.get("kind")]
+            if init and canon(init[-1]) == cvar:
+                pvar = y.get("name")
+    if pvar is None:
+        raise AnalysisBroken("%s: the copy of `%s` taken at the top of the loop was not found" % (rule, cvar))
+    gnl = [y for y in walk(kids(main)[-1]) if y.get("kind") in ("CallExpr", "CXXMemberCallExpr") and db.callee(y)[0] == "GetNextLocation"][0]
+    locvar = canon(db.call_args(gnl)[1])
+    prevvar = None
+    for y in kids(kids(main)[-1]):
+        if y.get("kind") == "BinaryOperator" and y.get("opcode") == "=" and canon(kids(y)[1]) == locvar and prevvar is None and canon(kids(y)[0]) != cvar:
+            prevvar = canon(kids(y)[0])
+    if prevvar is None:
+        raise AnalysisBroken("%s: `prev = %s` at the top of the loop not found" % (rule, locvar))
+    INSIDE = 4
+    n = bad = 0
+    first = None
+    for p0 in range(4):
+        for l0 in range(4):
+            if p0 == l0:
+                continue
+            for cw in (True, False):
+                it = Interp(db, {cvar: l0, pvar: INSIDE, prevvar: p0, locvar: l0, "i": 1}, [])
+                it.concrete_loops = True
+
+                def hook(name, argv, nd, it=it, cw=cw):
+                    if name in ("IsClockwise",):
+                        return cw
+                    if name == "GetAdjacentLocation" and argv is not None:
+                        return (argv[0] + (1 if argv[1] else 3)) % 4
+                    if name == "AddCorner":
+                        a0 = canon(db.call_args(nd)[0])
+                        v = it.ev(db.call_args(nd)[0])
+                        flag = it.ev(db.call_args(nd)[1])
+                        it.env[a0] = (v + (1 if flag else 3)) % 4
+                        return None
+                    if name in ("emplace_back", "push_back"):
+                        return None
+                    return NotImplemented
+                it.call_hook = hook
+                try:
+                    it.exec(then)
+                except (_Continue, _Return):
+                    pass
+                except Unsupported as e:
+                    raise AnalysisBroken("%s: cannot interpret the no-crossing branch: %s" % (rule, e))
+                n += 1
+                if it.env.get(cvar) != INSIDE:
+                    bad += 1
+                    if first is None:
+                        first = (p0, l0, cw, it.env.get(cvar))
+    chk.instance(rule, {"function": f.qual, "cases": n, "wrong": bad, "cfg": cfg}, ok=not bad)
+    if bad:
+        nm = ["Left", "Top", "Right", "Bottom", "Inside"]
+        p0, l0, cw, got = first
+        chk.violation(rule, f.qual, "no-crossing", "a segment from the %s to the %s region that does not cross the rectangle, before the first crossing: `%s` is left at %s "
+                      "instead of Inside ('not crossed yet') in %d of %d cases - the next change of region is then emitted as corners instead of being recorded in "
+                      "start_locs_, and the closing walk adds wrong corners" % (nm[p0], nm[l0], cvar, nm[got] if isinstance(got, int) and 0 <= got < 5 else got, bad, n),
+                      where(node), cfg=cfg)
+    return n
